@@ -128,6 +128,10 @@ func (cs *checkerSet) importChanged(w *World, module, diff string) *core.Violati
 			return cs.r.Flag(cs.prop+"/escrow-state-changed-by-restart-from-export", "escrow state exported at height %d is not what a chain booted from that export holds: %s", w.Height, diff)
 		}
 	}
+	if module == "cert" && cs.prop == "C17" {
+		// "its state only ever moves from valid to revoked ... and it is never removed" - also across a restart
+		return cs.r.Flag("C17/certificates-changed-by-restart-from-export", "certificate state exported at height %d is not what a chain booted from that export holds: %s", w.Height, diff)
+	}
 	return nil
 }
 
